@@ -245,9 +245,8 @@ where
         // `part_weights` changes at the end of each pass, so `thread_max_pws`
         // needs to be updated here.
         for (max_pw, pw) in thread_max_pws.iter_mut().zip(&part_weights) {
-            *max_pw = *pw
-                + W::from_f64((max_part_weight - *pw).to_f64().unwrap() / thread_count as f64)
-                    .unwrap();
+            // Divide in `W`: going through `f64` can round an integer headroom up.
+            *max_pw = *pw + (max_part_weight - *pw) / W::from_usize(thread_count).unwrap();
         }
 
         #[cfg(feature = "coupe_verif")]
